@@ -812,6 +812,7 @@ func opGrp(fails *[]string, prog string, batch bool) string {
 		maps := make([]*fr.Element, len(valid))
 		for i := range maps {
 			maps[i] = new(fr.Element)
+			maps[i].SetUint64(uint64(0xDEAD0000 + i)) // a reused result buffer: never zero beforehand
 		}
 		err := banderwagon.BatchMapToScalarField(maps, valid)
 		assertf(fails, err == nil, "BatchMapToScalarField failed")
